@@ -193,6 +193,13 @@ def py_mon_C04(c):
             if x == 4 and attempts(c, i) == 0:
                 return ("step %d is reported finished but its command never ran (run reported '%s')" % (i, ST.get(c["status"], "?")),
                         {"kind": "finished-without-running"})
+            if x == 4:
+                # "finished" means completed: the step's last attempt succeeded (C04_finished_means_ran)
+                last = [e for e in evs if e["e"] in ("e", "x") and e.get("i") == i][-1:]
+                if last and not (last[0]["e"] == "e" and last[0].get("ok", False)):
+                    return ("step %d is reported finished but its last attempt failed (run reported '%s'; Schedule was %s a done channel)"
+                            % (i, ST.get(c["status"], "?"), "given" if c["done"] else "not given"),
+                            {"kind": "finished-after-failure", "done": bool(c["done"])})
     last_step_t = max([e["t"] for e in evs if e["e"] in ("s", "e")], default=-1)
     first_h_t = min([e["t"] for e in evs if e["e"] in ("hs",) or (e["e"] == "x" and e["i"] < 0)], default=None)
     # a stop that completed before the last step event certainly preceded the choice of the handlers; one after it may
@@ -373,8 +380,11 @@ def distribution2(cases):
             d["stop_at_event"][a] = d["stop_at_event"].get(a, 0) + 1
         if c.get("timeout"):
             d["with_timeout"] += 1
-        for f in c["final"]:
+        for i, f in enumerate(c["final"]):
             d["final_status"][ST.get(f["st"], "?")] = d["final_status"].get(ST.get(f["st"], "?"), 0) + 1
+            # a stop during a retry interval: the retrying worker's reset undoes the canceled label (Props/C05.v (4))
+            if f["st"] == 0 and attempts(c, i) > 0:
+                d["attempted_but_labelled_not_started"] = d.get("attempted_but_labelled_not_started", 0) + 1
         for e in c["events"]:
             if e["e"] == "k":
                 d["kill_events"] += 1
